@@ -62,7 +62,7 @@ ASSUME = ["refs/mmaeref.py (log-space Bayes, mixture moments) is the reference; 
           "linear stub dynamics/observations replace the environment of the model filters only; ray stand-in for the scenario runs"]
 SHARDS = {"quick": 4, "thorough": 16}
 BUDGET_S = {"quick": 70, "thorough": 540}
-DECIDING = ["prob_valid", "keep_one", "bayes", "gpb1_mixing", "prune_exact", "moments_est", "moments_pred", "cov_sym_psd",
+DECIDING = ["prob_valid", "keep_one", "bayes", "gpb1_mixing", "prune_exact", "moments_est", "moments_pred", "cov_sym_psd", "model_settings",
             "closure", "handover"]
 MANIFEST = {"technique": "runtime monitoring: recording pre/post wrappers on the real SMM/GPB1 classes driven through generated histories",
             "level_text": "held on every history explored except the recorded violations (counts in evidence)",
